@@ -16,6 +16,7 @@ the formatter panicked on an error-free input.
 import concurrent.futures
 import difflib
 import itertools
+import glob
 import json
 import os
 import random
@@ -239,6 +240,9 @@ def run_plan(chk, plan, tag, tot, batch_elems=250_000, skip=0, take=None):
         for raw in f:
             info = json.loads(raw)
             tot.cases += 1
+            if info["id"].startswith("f_"):
+                # recorded inputs of repaired ("regress:") and listed ("finding:") defects
+                info["origin"] = ("regress:" if info["id"].startswith("f_fixed_") else "finding:") + info["id"][2:]
             o = info.get("origin", "?").split(":")[0]
             st = info["status"]
             if st in ("input_diagnostics", "no_text"):
@@ -657,6 +661,11 @@ def main(tier, replay=None):
                         c = lattice[(n * 7 + oi * 3 + rep * 11 + ci * 97) % len(lattice)] if ci else QUICK_CFGS[rep]
                         plan.append({"id": f"m{n}.{op}.{rep}.{ci}",
                                      "src": src_of(s, {"op": op, "seed": seed() * 100000 + n * 10 + rep}), "cfg": c})
+    # the recorded minimal inputs of repaired and of listed formatter defects are replayed in every run
+    for fp in sorted(glob.glob(os.path.join(os.path.dirname(SPECS), "corpus", "findings", "C11", "*.json"))):
+        fl = json.load(open(fp))
+        fl["id"] = "f_" + os.path.basename(fp)[:-5]
+        plan.append(fl)
     n_sel = corruption_self_test(chk, [p for p in plan if p["id"].startswith("c")][:40:3])
     step = 12_000 if tier == "thorough" else len(plan)
     for part, a in enumerate(range(0, len(plan), step)):
